@@ -114,7 +114,7 @@ func replay(c *vf.Ctx, raw json.RawMessage) {
 		replayVec(c, cs)
 	case "cmp":
 		replayCmp(c, cs)
-	case "conv":
+	case "conv", "convpair":
 		replayConv(c, cs)
 	default:
 		c.HarnessError("replay: unknown case kind " + cs.Kind)
